@@ -101,7 +101,36 @@ class Cx:
 
     # ------------------------------------------------------------------ helpers
     def fn(self, qualname: str) -> FuncInfo:
-        return self.prog.func(qualname)
+        f = self.prog.func(qualname)
+        self._check_positional_api(f)
+        return f
+
+    def _check_positional_api(self, f: FuncInfo) -> None:
+        """R-API: a documented function keeps its documented positional parameters, in order, as a prefix of its positional
+        parameters (new ones come after them, or are keyword-only): otherwise an existing positional call binds its arguments to
+        other parameters - execute_systems(True) no longer asks for the error.  Checked once for every function a rule looks at."""
+        seen = self.__dict__.setdefault('_api_checked', set())
+        if f.qualname in seen or getattr(self, 'is_premise', False) and False:
+            return
+        seen.add(f.qualname)
+        try:
+            sigs = self.walker._sigs()
+        except Exception:
+            return
+        pinned = sigs.get('#pos:' + f.qualname.split('@')[0])
+        if pinned is None:
+            return
+        cur = list(f.params)
+        if f.cls is not None and not f.is_static and f.parent is None and cur and pinned:
+            cur, pinned = cur[1:], list(pinned)[1:]         # the receiver's name is not part of the interface
+        had_var = any(n.startswith('*') and not n.startswith('**') for n in sigs.get(f.qualname.split('@')[0], []))
+        # a documented parameter that is still there keeps its position (a renamed one is a different matter: positions are unchanged)
+        ok = all(cur.index(q) == i for i, q in enumerate(pinned) if q in cur) and (not had_var or len(cur) == len(pinned))
+        if not ok:
+            self.violation('R-API', f.qualname, 'documented-positional-parameters-kept',
+                           f"{f.qualname} takes the positional parameters {cur}; the documented ones are {pinned}"
+                           f"{' followed by *args' if had_var else ''}: a call that passes them by position now binds its arguments to other "
+                           f"parameters", where=self.where(f))
 
     def paths(self, fn, **kw) -> List[Path]:
         if isinstance(fn, str):
